@@ -385,10 +385,13 @@ pub fn run(tier: Tier, part_only: bool) -> i32 {
 fn run_all(rep: &mut Report, tier: Tier) {
     let scs = scenarios(tier);
     let tot = e1::run_scenarios(rep, &scs, &e1::strict_judge, if tier.is_quick() { 40.0 } else { 3000.0 });
+    // a sender that dies mid-message on a routed channel: the callback is dropped exactly when no
+    // sender survives, a survivor's messages still reach it (C12's crash machinery, router observer)
+    let ncrash = super::c12::run_for(rep, &[super::c12::Watch::Router], "sender crash seen through a router callback");
     rep.set("deviation_bound_min", json!(tot.min_bound));
     rep.set("deviation_bound_max", json!(tot.max_bound));
-    rep.set("evaluations", json!(tot.execs));
-    rep.set("distinct_nontrivial", json!(tot.with_switch));
+    rep.set("evaluations", json!(tot.execs + ncrash));
+    rep.set("distinct_nontrivial", json!(tot.with_switch + ncrash));
     rep.set("rule", json!("one evaluation = one complete schedule (<= bound deviations) of registering/sending/dropping tasks against the real router thread; routes: callback with drop guard or crossbeam forwarding, 0-2 messages queued before registration, 0-2 after, registered from the main task or a helper, callbacks that themselves perform a visible operation, a forwarding route whose crossbeam receiver was dropped; plus quiet bursts of 9/12/33 registrations, a 40+10 / 0+50 backlog, a backlog on the newer route first then the older one, and six registering tasks (wide scenarios count every non-default choice as a deviation); schedules are distinct by construction (the depth-first search never repeats a choice sequence) and a schedule counts as non-trivial when it contains at least one context switch; enumerated cases are distinct by construction"));
     rep.assume("router queue operations are paired with a system call inside one critical section, so system-call/futex granularity covers its interleavings");
     rep.assume("the proxy is leaked at the end of each execution (stopping a router is C17)");
@@ -396,6 +399,9 @@ fn run_all(rep: &mut Report, tier: Tier) {
 
 pub fn replay(tier: Tier, v: &Value) -> i32 {
     let v = if v.get("variant").is_some() { &v["case"] } else { v };
+    if v["engine"] == "crash-case" {
+        return super::c12::replay(&v["case"]);
+    }
     let mut scs = scenarios(tier);
     scs.extend(scenarios(if tier.is_quick() { Tier::Thorough } else { Tier::Quick }));
     e1::replay(&scs, v)
